@@ -255,6 +255,11 @@ impl World {
         self.in_flight.push(InFlight { arrive_us, seq, from, to, bytes, wire_idx });
     }
 
+    fn push_in_flight_front(&mut self, from: SocketAddr, to: SocketAddr, bytes: Box<[u8]>) {
+        // arrival time 0 sorts before everything that has not been read yet
+        self.in_flight.push(InFlight { arrive_us: 0, seq: 0, from, to, bytes, wire_idx: Some(u32::MAX) });
+    }
+
     /// Takes everything the endpoints have sent since the last call and decides its fate.
     pub fn route(&mut self) {
         for d in net::take_wire() {
@@ -302,6 +307,12 @@ impl World {
     }
 
     /// A datagram made by the harness (raw peer, forged source) travelling to `to`.
+    /// Like `send_raw` with no delay, but the datagram is placed ahead of everything else that has arrived for `to`
+    /// and has not been read yet.
+    pub fn send_raw_front(&mut self, from: SocketAddr, to: SocketAddr, bytes: &[u8]) {
+        self.push_in_flight_front(from, to, bytes.into());
+    }
+
     pub fn send_raw(&mut self, from: SocketAddr, to: SocketAddr, bytes: &[u8], delay_us: u64) {
         self.push_in_flight(self.now_us + delay_us, from, to, bytes.into(), None);
     }
@@ -326,6 +337,10 @@ impl World {
         }
         for f in due {
             if net::inject(f.to, f.from, &f.bytes) {
+                if f.wire_idx == Some(u32::MAX) {
+                    // line noise placed by `send_raw_front`: not part of the record of protocol traffic
+                    continue;
+                }
                 let seq = self.next_ev();
                 self.delivered.push(DeliveredRec { seq, t_us: self.now_us, from: f.from, to: f.to, bytes: f.bytes, wire_idx: f.wire_idx });
             }
